@@ -78,8 +78,15 @@ func (w *histWorld) Gen(seed uint64, tier string) *Plan {
 	if floatOK(w.prop, cfg.Kind) && !big && r.P(1, 8) {
 		useFloat(r, &cfg)
 		cfg.Dom = min(cfg.Dom, 64)
+	} else if anyOK(w.prop, cfg.Kind) && !big && r.P(1, 10) {
+		useAny(&cfg)
 	}
 	cfg.Strat = r.PickS("random", "burst", "roundrobin")
+	if !big && !w.bigN && r.P(1, 4) {
+		// unobserved stretches: the harness's own observers are reads, and a container that defers work to
+		// the next read (a dirty flag, a lazily rebuilt index) never meets two mutations in a row otherwise
+		cfg.Skip = []int{2, 3, 5, 9}[r.Intn(4)]
+	}
 	p := &Plan{World: "hist", Cfg: cfg}
 	s := makeSubject(cfg, false)
 	roles := []string{"mixed"}
@@ -193,10 +200,30 @@ func (w *histWorld) Exec(p *Plan, st *RunStats) *Violation {
 	var fo *Oracle
 	removals, maxSize, clears, afterClear := 0, 0, 0, 0
 	opNames := map[string]bool{}
+	// a bystander: a second container of the same kind that the history never touches must stay as it is
+	// (package-level state shared between instances)
+	var by Subject
+	byObs := ""
+	if !w.count && p.Cfg.Dom <= 4096 && p.Cfg.MapSeed%3 == 0 {
+		by = s.Fresh()
+		inert := NewOracle(w.prop)
+		br := NewRng(p.Cfg.MapSeed ^ 0x5eed)
+		bc := &Client{Role: "mixed"}
+		for i := 0; i < 6; i++ {
+			bop := by.GenOp(br, 900000+i, bc)
+			if bop.N == "Clear" {
+				continue
+			}
+			safely(inert, bop, func() { inert.V = nil; by.Step(bop, inert) })
+		}
+		byObs = by.ObsJSON()
+	}
+	skipped := false
 	for _, op := range p.Ops {
 		before := s.ModelSize()
 		op := op
-		o.Sparse = p.Cfg.Mode == "big" && op.ID%16 != 0
+		skipped = p.Cfg.Skip > 1 && derive(op.ID, 77, p.Cfg.Skip) != 0
+		o.Sparse = p.Cfg.Mode == "big" && op.ID%16 != 0 || skipped
 		safely(o, op, func() { s.Step(op, o) })
 		st.Ops++
 		if traceOn {
@@ -213,11 +240,15 @@ func (w *histWorld) Exec(p *Plan, st *RunStats) *Violation {
 		if w.c15 {
 			if fresh != nil {
 				afterClear++
+				fo.Sparse = skipped
 				safely(fo, op, func() { fresh.Step(op, fo) })
 				if fo.Failed() {
 					o.V = fo.V
 					o.V.Msg = "on a freshly constructed instance: " + o.V.Msg
 					break
+				}
+				if skipped {
+					continue
 				}
 				if a, b := s.ObsJSON(), fresh.ObsJSON(); a != b {
 					o.Fail("C15", "cleared-vs-fresh", "after Clear and the continuation up to %s the cleared container and a freshly constructed one differ:\n cleared: %s\n fresh:   %s", op, a, b)
@@ -239,9 +270,21 @@ func (w *histWorld) Exec(p *Plan, st *RunStats) *Violation {
 			st.States = append(st.States, hashStr(p.Cfg.Kind+s.ModelObs()))
 		}
 	}
-	if !o.Failed() && p.Cfg.Mode == "big" {
+	if !o.Failed() && (p.Cfg.Mode == "big" || p.Cfg.Skip > 1) {
 		if h, ok := s.(interface{ CheckNow(*Oracle) }); ok {
 			safely(o, Op{ID: -1, N: "FinalCheck"}, func() { o.cur = Op{ID: -1, N: "FinalCheck"}; h.CheckNow(o) })
+		}
+		if fresh != nil && !o.Failed() {
+			if a, b := s.ObsJSON(), fresh.ObsJSON(); a != b {
+				o.cur = Op{ID: -1, N: "FinalCheck"}
+				o.Fail("C15", "cleared-vs-fresh", "at the end of the run the cleared container and a freshly constructed one differ:\n cleared: %s\n fresh:   %s", a, b)
+			}
+		}
+	}
+	if by != nil && !o.Failed() {
+		if now := by.ObsJSON(); now != byObs {
+			o.cur = Op{ID: -1, N: "FinalCheck"}
+			o.Fail(w.prop, "bystander-changed", "a second %s that the history never touched changed while the first was operated on:\n before %s\n after  %s", p.Cfg.Kind, byObs, now)
 		}
 	}
 	if !o.Failed() {
